@@ -84,10 +84,11 @@ Definition session_poll (shutdown_first notified feed_lost coin : bool) : wind :
 Definition process_may_exit (waits : bool) (s : sstate) (listener_returned : bool) : bool :=
   if waits then completion_done s else listener_returned.
 
-(* The wind-down of a notified HTTP/1.1 session (http1_codec.rs graceful_shutdown): what is left of the download has to be written
+(* The wind-down of a notified HTTP/1.1 session (http1_codec.rs graceful_shutdown called through shutdown::close_within_bound by the
+   session's owner): what is left of the download has to be written
    to the client, flushed, and the transport shut down, all of which needs the client to take bytes. [taken_at] = when the client
    has taken all of it, in ms after the call (None = never: a client that has stopped reading and stays connected).
-   [bounded] = HTTP1_ORDERLY_CLOSE_BOUNDED: the whole orderly close runs under one bound [B]; on expiry the call fails and the
+   [bounded] = HTTP1_ORDERLY_CLOSE_BOUNDED: the whole orderly close of a NOTIFIED session runs under one bound [B]; on expiry it fails and the
    connection is closed by the drop of the codec (what was left is lost with the failed connection). As found the writes and the
    flush had no bound: the session of a client that reads nothing never finished, and completion never returned.
    Some (t, orderly) = the session finishes t ms after it was notified; None = it never does. *)
